@@ -1,6 +1,6 @@
 /-
 C12 — model of tetl's duration / time_point arithmetic and rounding casts
-(include/etl/_ratio/{ratio,ratio_divide}.hpp, _chrono/{duration,duration_cast,floor,ceil,round,abs,
+(include/etl/_ratio/{ratio,ratio_multiply,ratio_divide}.hpp, _chrono/{duration,duration_cast,floor,ceil,round,abs,
  time_point,time_point_cast}.hpp), integer representations.
 
 Conventions (those of the C14 model, which is reused for `gcd`, `lcm` and the integer types):
@@ -20,6 +20,10 @@ Conventions (those of the C14 model, which is reused for `gcd`, `lcm` and the in
 * expressions that the compiler evaluates at compile time (`ratio<…>::num`, `ratio_divide`,
   `common_type`) are evaluated in `intmax_t` with the same overflow rule: an overflow there is a
   compile-time error of the real program.
+
+The free functions of [time.duration.nonmember] (`d * s`, `s * d`, `d / s`, `d % s`) and [time.point.nonmember]
+(`tp + d`, `d + tp`, `tp - d`, `tp - tp`) are modelled as declared in duration.hpp / time_point.hpp; a `time_point` is its
+`time_since_epoch()`.
 
 "The model never returns `.error`" on the documented domain is the statement that no result depends
 on overflow (the C02 face of the property).  The four `duration_cast_impl::cast` bodies are modelled
@@ -59,23 +63,47 @@ def sign (v : Int) : Int := if v < 0 then -1 else 1
 def absImpl (v : Int) : Except Err Int :=
   if v ≥ 0 then .ok v else arith imax (v * -1)
 
-/-- `ratio<Num, Denom>`:
+/-- `ratio<Num, Denom>`: `static_assert(Denom != 0)`;
     `num = sign(Num) * sign(Denom) * abs(Num) / gcd(Num, Denom)`, `den = abs(Denom) / gcd(Num, Denom)` -/
-def mkRatio (n d : Int) : Except Err Ratio := do
-  let g ← C14.gcd imax imax n d
-  let an ← absImpl n
-  let s ← arith imax (sign n * sign d)
-  let p ← arith imax (s * an)
-  let num ← cdiv imax p g
-  let ad ← absImpl d
-  let den ← cdiv imax ad g
-  .ok ⟨num, den⟩
+def mkRatio (n d : Int) : Except Err Ratio :=
+  if d == 0 then .error (.pre "ratio: static_assert(Denom != 0)")
+  else do
+    let g ← C14.gcd imax imax n d
+    let an ← absImpl n
+    let s ← arith imax (sign n * sign d)
+    let p ← arith imax (s * an)
+    let num ← cdiv imax p g
+    let ad ← absImpl d
+    let den ← cdiv imax ad g
+    .ok ⟨num, den⟩
 
-/-- `ratio_divide<R1, R2> = ratio<R1::num * R2::den, R1::den * R2::num>` -/
-def ratioDivide (r1 r2 : Ratio) : Except Err Ratio := do
-  let n ← arith imax (r1.num * r2.den)
-  let d ← arith imax (r1.den * r2.num)
-  mkRatio n d
+/-- `ratio<N, D>::type` = `ratio<num, den>`: the specialisation named by the reduced members, whose own members are
+    computed again by the same expressions -/
+def ratioType (n d : Int) : Except Err Ratio := do
+  let r ← mkRatio n d
+  mkRatio r.num r.den
+
+/-- `detail::ratio_multiply_impl<R1, R2>::type`:
+    `gcd1 = gcd(R1::num, R2::den)`, `gcd2 = gcd(R2::num, R1::den)`,
+    `ratio<(R1::num / gcd1) * (R2::num / gcd2), (R1::den / gcd2) * (R2::den / gcd1)>::type` -/
+def ratioMultiply (r1 r2 : Ratio) : Except Err Ratio := do
+  let gcd1 ← C14.gcd imax imax r1.num r2.den
+  let gcd2 ← C14.gcd imax imax r2.num r1.den
+  let a ← cdiv imax r1.num gcd1
+  let b ← cdiv imax r2.num gcd2
+  let n ← arith imax (a * b)
+  let c ← cdiv imax r1.den gcd2
+  let e ← cdiv imax r2.den gcd1
+  let d ← arith imax (c * e)
+  ratioType n d
+
+/-- `ratio_divide<R1, R2>` = `detail::ratio_divide_impl<R1, R2>::type`: `static_assert(R2::num != 0)`;
+    `ratio_multiply_impl<R1, ratio<R2::den, R2::num>>::type` -/
+def ratioDivide (r1 r2 : Ratio) : Except Err Ratio :=
+  if r2.num == 0 then .error (.pre "ratio_divide: static_assert(R2::num != 0)")
+  else do
+    let inv ← mkRatio r2.den r2.num
+    ratioMultiply r1 inv
 
 /-- a duration type: `duration<Rep, Period>`; `per` is `Period::type`, already normalised -/
 structure DurTy where
@@ -199,6 +227,73 @@ def modCore (k : PairCtx) (x y : Int) : Except Err Int := do
   let q ← cmod k.cd.rep.promote l r
   .ok (mkCD k.cd q)
 def mod (a b : DurTy) (x y : Int) : Except Err Int := do let k ← pairCtx a b; modCore k x y
+
+/-! ### duration and a tick count ([time.duration.nonmember]) -/
+
+/-- static context of `duration<Rep1, Period> op Rep2`: `CD = duration<common_type_t<Rep1, Rep2>, Period>`, the converting
+    constructor `CD(d)`, the scalar type `Rep2`.  (The constraint `is_convertible_v<Rep2 const&, common_type_t<Rep1, Rep2>>`
+    holds for every pair of builtin integer types; `Rep2` is not a specialisation of `duration`.) -/
+structure ScalarCtx where
+  cd : DurTy
+  k : CastCtx
+  rs : ITy
+  deriving Repr, BEq, DecidableEq, Inhabited
+
+def scalarCtx (d : DurTy) (rs : ITy) : Except Err ScalarCtx := do
+  let cd : DurTy := ⟨ITy.common d.rep rs, d.per⟩
+  let k ← castCtx cd d
+  .ok ⟨cd, k, rs⟩
+
+/-- `operator*(duration<Rep1, Period> const& d, Rep2 const& s)`: `CD(CD(d).count() * s)`; the product is evaluated in the
+    type of `CR * Rep2` (usual arithmetic conversions), `CD(x)` converts it to `CR` -/
+def mulRepCore (k : ScalarCtx) (c s : Int) : Except Err Int := do
+  let l ← convertCore k.k c
+  let t := ITy.usual k.cd.rep k.rs
+  let p ← arith t (t.conv l * t.conv s)
+  .ok (k.cd.rep.conv p)
+def mulRep (d : DurTy) (rs : ITy) (c s : Int) : Except Err Int := do let k ← scalarCtx d rs; mulRepCore k c s
+
+/-- `operator*(Rep1 const& s, duration<Rep2, Period> const& d)`: `return d * s;` (the declared return type
+    `duration<common_type_t<Rep1, Rep2>, Period>` is the type of `d * s`: a copy) -/
+def repMul (rs : ITy) (d : DurTy) (s c : Int) : Except Err Int := mulRep d rs c s
+
+/-- `operator/(duration<Rep1, Period> const& d, Rep2 const& s)`: `CD(CD(d).count() / s)` -/
+def divRepCore (k : ScalarCtx) (c s : Int) : Except Err Int := do
+  let l ← convertCore k.k c
+  let t := ITy.usual k.cd.rep k.rs
+  let q ← cdiv t (t.conv l) (t.conv s)
+  .ok (k.cd.rep.conv q)
+def divRep (d : DurTy) (rs : ITy) (c s : Int) : Except Err Int := do let k ← scalarCtx d rs; divRepCore k c s
+
+/-- `operator%(duration<Rep1, Period> const& d, Rep2 const& s)`: `CD(CD(d).count() % s)` -/
+def modRepCore (k : ScalarCtx) (c s : Int) : Except Err Int := do
+  let l ← convertCore k.k c
+  let t := ITy.usual k.cd.rep k.rs
+  let q ← cmod t (t.conv l) (t.conv s)
+  .ok (k.cd.rep.conv q)
+def modRep (d : DurTy) (rs : ITy) (c s : Int) : Except Err Int := do let k ← scalarCtx d rs; modRepCore k c s
+
+/-! ### time_point and duration ([time.point.nonmember])
+
+A `time_point<Clock, Duration>` is its `time_since_epoch()`, a `Duration`; `CT(x)` is the constructor
+`time_point(duration const& d) : _d{d}` applied to a value that already has the type `CT::duration`
+(`common_type_t<Dur1, duration<Rep2, Period2>>` is the return type of the duration operator): a copy. -/
+
+/-- `operator+(time_point<Clock, Dur1> const& lhs, duration<Rep2, Period2> const& rhs)`: `CT(lhs.time_since_epoch() + rhs)` -/
+def tpPlusCore (k : PairCtx) (x y : Int) : Except Err Int := addCore k x y
+def tpPlus (a b : DurTy) (x y : Int) : Except Err Int := do let k ← pairCtx a b; tpPlusCore k x y
+
+/-- `operator+(duration<Rep1, Period1> const& lhs, time_point<Clock, Dur2> const& rhs)`: `return rhs + lhs;` -/
+def durPlusTp (a b : DurTy) (x y : Int) : Except Err Int := tpPlus b a y x
+
+/-- `operator-(time_point<Clock, Dur1> const& lhs, duration<Rep2, Period2> const& rhs)`: `CT(lhs.time_since_epoch() - rhs)` -/
+def tpMinusCore (k : PairCtx) (x y : Int) : Except Err Int := subCore k x y
+def tpMinus (a b : DurTy) (x y : Int) : Except Err Int := do let k ← pairCtx a b; tpMinusCore k x y
+
+/-- `operator-(time_point<Clock, Dur1> const& lhs, time_point<Clock, Dur2> const& rhs) -> common_type_t<Dur1, Dur2>`:
+    `lhs.time_since_epoch() - rhs.time_since_epoch()` -/
+def tpDiffCore (k : PairCtx) (x y : Int) : Except Err Int := subCore k x y
+def tpDiff (a b : DurTy) (x y : Int) : Except Err Int := do let k ← pairCtx a b; tpDiffCore k x y
 
 /-- `operator==`: `common_t(lhs).count() == common_t(rhs).count()` -/
 def eqCore (k : PairCtx) (x y : Int) : Except Err Bool := do
